@@ -853,3 +853,113 @@ func rcLoadedSearch(c *Ctx, f *FuncCFG, b0 *cfg.Block, start int, loaded types.O
 	}
 	return ""
 }
+
+// ---------------------------------------------------------------------------
+// working-trie: the state-root module's working trie - the one whose changes are flushed to the database - is
+// always opened with the module's full mode (a masked mode stops marking replaced nodes inactive, so the collector
+// never sees them or, worse, removes what a retained root still needs after the next reload) over the module's
+// own store, and each flush stamps the nodes with the index of the very block whose root record is written.
+func ruleWorkingTrie(c *Ctx) {
+	pk := c.P.Pkg("pkg/core/stateroot")
+	if pk == nil {
+		c.Lost("anchor", "package stateroot not found")
+		return
+	}
+	const fMpt, fMode, fStore = "pkg/core/stateroot#mpt", "pkg/core/stateroot#mode", "pkg/core/stateroot#Store"
+	nopen, nflush := 0, 0
+	for _, fd := range c.P.AllFuncDecls() {
+		if fd.Obj.Pkg() != pk.Types || fd.Decl.Body == nil {
+			continue
+		}
+		f := c.P.NewFuncCFG(fd)
+		k := 0
+		for _, s := range f.WriteSites(fMpt) {
+			as, ok := s.node.(*ast.AssignStmt)
+			if !ok || len(as.Rhs) != 1 {
+				continue
+			}
+			call, ok := ast.Unparen(as.Rhs[0]).(*ast.CallExpr)
+			if !ok || f.calleeSym(call) != "pkg/core/mpt.NewTrie" || len(call.Args) != 3 {
+				continue
+			}
+			nopen++
+			k++
+			key := fmt.Sprintf("open.%s#%d", FuncKey(fd.Obj), k)
+			mode, store := call.Args[1], call.Args[2]
+			masked := ""
+			var chk func(e ast.Expr, depth int)
+			chk = func(e ast.Expr, depth int) {
+				ast.Inspect(e, func(x ast.Node) bool {
+					switch y := x.(type) {
+					case *ast.BinaryExpr:
+						if y.Op == token.AND_NOT || y.Op == token.AND || y.Op == token.XOR {
+							masked = types.ExprString(y)
+						}
+					case *ast.Ident:
+						if v, ok := f.Info.ObjectOf(y).(*types.Var); ok && !v.IsField() && depth < 3 {
+							for _, d := range f.defs[v] {
+								for _, r := range d.rhs {
+									chk(r, depth+1)
+								}
+							}
+						}
+					}
+					return true
+				})
+			}
+			chk(mode, 0)
+			mm := f.Mentions(mode, s.blk)
+			sm := f.Mentions(store, s.blk)
+			switch {
+			case !mm[fMode]:
+				c.Fail(key, c.P.Pos(call.Pos()), fmt.Sprintf("%s opens the working trie with a mode (%s) that is not the module's configured mode", FuncKey(fd.Obj), types.ExprString(mode)))
+			case masked != "":
+				c.Fail(key, c.P.Pos(call.Pos()), fmt.Sprintf("%s opens the working trie with a masked mode (%s): with the GC flag stripped the flushes of the following blocks delete or keep replaced nodes as in non-GC mode instead of marking them inactive with their height, and the retained roots lose nodes (or the collector never frees any)", FuncKey(fd.Obj), masked))
+			case !sm[fStore] || sm["pkg/core/storage.NewMemCachedStore"] || sm["pkg/core/storage.NewPrivateMemCachedStore"]:
+				c.Fail(key, c.P.Pos(call.Pos()), fmt.Sprintf("%s opens the working trie over %s, not over the module's own store: its flushes never reach the database", FuncKey(fd.Obj), types.ExprString(store)))
+			default:
+				c.OK(key, c.P.Pos(call.Pos()), "working trie opened with the module's unmasked mode over the module's store")
+			}
+		}
+		// flush height == index of the root record
+		var idx ast.Expr
+		ast.Inspect(fd.Decl.Body, func(x ast.Node) bool {
+			cl, ok := x.(*ast.CompositeLit)
+			if !ok {
+				return true
+			}
+			if t := f.Info.TypeOf(cl); t == nil || !strings.HasSuffix(t.String(), "pkg/core/state.MPTRoot") {
+				return true
+			}
+			for _, el := range cl.Elts {
+				if kv, ok := el.(*ast.KeyValueExpr); ok {
+					if id, ok := kv.Key.(*ast.Ident); ok && id.Name == "Index" {
+						idx = kv.Value
+					}
+				}
+			}
+			return true
+		})
+		for _, s := range f.CallSites("pkg/core/mpt.(*Trie).Flush") {
+			if len(s.call.Args) != 1 || idx == nil {
+				continue
+			}
+			nflush++
+			key := "flush-height." + FuncKey(fd.Obj)
+			a, b := f.Mentions(s.call.Args[0], s.blk), f.Mentions(idx, nil)
+			same := len(a) == len(b)
+			for k := range a {
+				if !b[k] {
+					same = false
+				}
+			}
+			if same && len(a) > 0 {
+				c.OK(key, c.P.Pos(s.call.Pos()), fmt.Sprintf("the height given to Flush (%s) is the index of the root record written for the same block (%s)", types.ExprString(s.call.Args[0]), types.ExprString(idx)))
+			} else {
+				c.Fail(key, c.P.Pos(s.call.Pos()), fmt.Sprintf("%s flushes the trie with height %s while the root record it writes carries index %s: nodes replaced by this block are marked inactive (or new nodes stamped) with another height than the block's, so a collection up to G removes nodes the state of G still needs", FuncKey(fd.Obj), types.ExprString(s.call.Args[0]), types.ExprString(idx)))
+			}
+		}
+	}
+	c.Floor("working trie openings in stateroot.Module", nopen, 4)
+	c.Floor("flushes paired with a root record", nflush, 1)
+}
